@@ -22,7 +22,7 @@ int main() {
             const std::string src = unhex(f[1]);
             std::vector<std::string> files;
             simplecpp::OutputList outputList;
-            simplecpp::TokenList list(reinterpret_cast<const unsigned char*>(src.data()), src.size(), files, "f.c", &outputList);
+            simplecpp::TokenList list(simplecpp::View(src.data(), src.size()), files, "f.c", &outputList);
             if (f[0] == "tokens")
                 list.removeComments();
             std::string out = "T";
